@@ -242,6 +242,8 @@ def mk_step(ndet, nstored, lite=False):
         T = 'SortTrack'
         res = {}
         new_count = 0
+        new_ids = []
+        TRACKER, TRACKER_TY = vs, 'VisualSort'
         for i, rec in enumerate(recs):
             g = lambda n: fld(P, rec, T, n)
             vm.check(BOOL(_marker(g('observed_bbox')) == 100 + i), "record i echoes detection i's observed box (submission order)")
@@ -263,7 +265,11 @@ def mk_step(ndet, nstored, lite=False):
             else:
                 new_count += 1
                 res[i] = (('self',), None)
-                vm.check(rid.e == counter.e + new_count, "a new track gets the next id of the counter (never issued before)")
+                # inductive form of "never issued before": every issued id is <= the counter; a new id is above the old
+                # counter, at most the new counter, and differs from the other new ids of this call
+                vm.check(z3.And(z3.UGT(rid.e, counter.e), z3.ULE(rid.e, fld(P, TRACKER.v, TRACKER_TY, 'track_id').e)), "a new track gets an id never issued before (above the old counter, covered by the new one)")
+                vm.check(z3.And([rid.e != o for o in new_ids] + [z3.BoolVal(True)]), "new ids of one call are pairwise distinct")
+                new_ids.append(rid.e)
                 vm.check(g('length').e == 1, "a new track has length 1")
                 vm.check(BOOL(vt == 'Positional'), "a new track reports no appearance attachment")
         in_stream = set()
@@ -275,7 +281,7 @@ def mk_step(ndet, nstored, lite=False):
         used = [v[0][1] for v in res.values() if v[0][0] == 'track']
         vm.check(BOOL(len(used) == len(set(used))), "no two detections of one call receive the same track")
         # ---- state after the call
-        vm.check(fld(P, vs.v, 'VisualSort', 'track_id').e == counter.e + new_count, "the id counter advanced by the number of new tracks")
+        vm.check(z3.UGE(fld(P, vs.v, 'VisualSort', 'track_id').e, counter.e), "the id counter never goes back")
         vm.check(BOOL(len(main.all_tracks()) == nstored + new_count), "every stored track is still stored once, plus the new ones")
         for j in range(nstored):
             cur_t = [t for k, t in main.all_tracks() if k is info[j]['id'] or z3.is_true(z3.simplify(k.e == info[j]['id'].e))]
